@@ -151,6 +151,29 @@ impl PentagonShape {
         d_max
     }
 
+    /// Distance from a point to the pentagon: 0 if the point is on the inner side of every edge,
+    /// otherwise the largest perpendicular distance to the line of an edge it is on the wrong side of.
+    /// Unlike the negative score of `contains_point` (which is divided by the distance to a vertex
+    /// and therefore arbitrary for a point at that vertex) this can be compared between pentagons.
+    pub fn distance_outside(&self, point: Face) -> f64 {
+        let n = self.vertices.len();
+        let mut d_max: f64 = 0.0;
+        for i in 0..n {
+            let v1 = self.vertices[i];
+            let v2 = self.vertices[(i + 1) % n];
+            let dx = v1.x() - v2.x();
+            let dy = v1.y() - v2.y();
+            let px = point.x() - v1.x();
+            let py = point.y() - v1.y();
+            let cross_product = dx * py - dy * px;
+            if cross_product < 0.0 {
+                let edge_length = (dx * dx + dy * dy).sqrt();
+                d_max = d_max.max(-cross_product / edge_length);
+            }
+        }
+        d_max
+    }
+
     /// Splits each edge of the pentagon into the specified number of segments
     /// Returns a new PentagonShape with more vertices, or the original PentagonShape if segments <= 1
     pub fn split_edges(&self, segments: usize) -> PentagonShape {
